@@ -19,6 +19,12 @@ CLAIMED.update({
     'C04': dict(engine='P', design='§8 C04', technique='bounded symbolic execution of ja.apply_binary_rules/apply_unary_rules + Unification on z3 against a reference reading of the Japanese schemata, replay',
                 text='for every ordered pair of categories with three-part features within the bounds every result of the real Japanese rule functions is justified by the schema its symbol names (head right, crossed composition keeps the secondary slash, variables instantiated from inputs), and unary steps carry the label the input shape demands, on every feasible path'),
 })
+CLAIMED.update({
+    'C06': dict(engine='P', design='§8 C06', technique='bounded symbolic execution of Unification on z3, differential against a reference matcher written from the statement, replay',
+                text='for every pattern pair the grammars use (read from the AST) plus synthetic ones and every pair of inputs within the shape/feature bounds: same verdict as the reference matcher, bindings are the matched sub-categories up to instantiation of variable features, no binding after failure, one answer per matcher — on every feasible path'),
+    'C14': dict(engine='P', design='§8 C14', technique='bounded symbolic execution of both grammars\' rule functions on z3 with the set-iteration order (hash seed) as a solver variable; PYTHONHASHSEED replay',
+                text='within the bounds: no exception, arguments unchanged, second call equal, result independent of the iteration order of the shared-variable set, seen-rule filter is all-or-nothing on the erased pair, English results independent of nb marks, unary tables return exactly their targets in order'),
+})
 REASONS = {}
 def main():
     checks = []
